@@ -122,6 +122,15 @@ func c04StackPlain(name string, minChunk int) ociregistry.Interface {
 	panic("unknown stack " + name)
 }
 
+// c04Write writes from a scratch buffer and overwrites it as soon as Write has returned, as a caller
+// that reuses its buffer does (io.Writer: "Write must not retain p").
+func c04Write(w io.Writer, data []byte) (int, error) {
+	scratch := append([]byte(nil), data...)
+	n, err := w.Write(scratch)
+	scribble(scratch)
+	return n, err
+}
+
 func c04Content(n int) []byte {
 	c := make([]byte, n)
 	for i := range c {
@@ -208,7 +217,7 @@ func c04Run(r *vcore.Run, sc c04Script) (ops int64) {
 					ops++
 					if err == nil {
 						piece := content[off : off+p]
-						_, werr := wb.Write(piece)
+						_, werr := c04Write(wb, piece)
 						var cerr error
 						switch {
 						case werr != nil:
@@ -232,7 +241,7 @@ func c04Run(r *vcore.Run, sc c04Script) (ops int64) {
 						}
 						// a second attempt on the same mis-positioned writer must be refused too (direct stacks keep the writer usable)
 						if sc.Stack == "mem" || sc.Stack == "uni" {
-							if _, werr2 := wb.Write(piece); werr2 == nil {
+							if _, werr2 := c04Write(wb, piece); werr2 == nil {
 								viol("bad-resume-second-write-accepted/"+sc.BadKind, "still refused", "second write on the mis-positioned writer accepted")
 								return
 							}
@@ -260,12 +269,12 @@ func c04Run(r *vcore.Run, sc c04Script) (ops int64) {
 					return
 				}
 			}
-			nw, err := w.Write(content[off : off+p])
+			nw, err := c04Write(w, content[off:off+p])
 			ops++
 			if err != nil && faultPending && nw >= 0 && nw <= p {
 				// the caller retries what was not accepted
 				faultPending = false
-				nw2, err2 := w.Write(content[off+nw : off+p])
+				nw2, err2 := c04Write(w, content[off+nw:off+p])
 				ops++
 				nw, err = nw+nw2, err2
 			}
